@@ -716,12 +716,12 @@ def pgdb_cases(ctx):
     # explicit start points (var_start option): the optimum must not depend on where the run starts
     # (generic loss classes only: the fast classes leave loss.num_var = None, so is_loss_and_option_sufficient() rejects any var_start with
     #  them and the estimator raises ValueError -- an observation outside this property's quantifier, see the report)
-    for j, (setup, lname, mode) in enumerate([("qst1", "se", 0), ("povmt1", "re", 0), ("qst1", "re", 3), ("povmt1", "se", 1)] * ctx.n(1, 3)):
+    for j, (setup, lname, mode) in enumerate(([("qst1", "se", 0), ("povmt1", "re", 0)] if ctx.quick else [("qst1", "se", 0), ("povmt1", "re", 0), ("qst1", "re", 3), ("povmt1", "se", 1)] * 3)):
         cases.append({"setup": setup, "para": j % 2 == 1, "loss": lname, "mode": mode, "h": 1, "eps": None if mode in (0, 1) else 1e-7,
                       "max_iter": 150 if ctx.quick else 400, "shots": [1000, 0, 100][j % 3], "seed": ctx.rng.randrange(10 ** 6),
                       "truth_seed": ctx.rng.randrange(10 ** 6), "start_seed": ctx.rng.randrange(10 ** 6), "gamma": 0.3, "mu": None})
     # truths at the rim of the physical set (see extreme_object)
-    for j, (setup, lname, mode, shots) in enumerate([("povmt1", "fse", 0, 0), ("povmt1", "fre", 1, 1000), ("qst1", "fre", 3, 0), ("qpt1", "fse", 2, 0)] * ctx.n(1, 4)):
+    for j, (setup, lname, mode, shots) in enumerate(([("povmt1", "fse", 0, 0), ("povmt1", "fre", 1, 1000), ("qst1", "fre", 3, 0)] if ctx.quick else [("povmt1", "fse", 0, 0), ("povmt1", "fre", 1, 1000), ("qst1", "fre", 3, 0), ("qpt1", "fse", 2, 0)] * 4)):
         cases.append({"setup": setup, "para": j % 2 == 0, "loss": lname, "mode": mode, "h": 1 + j % 2, "eps": None if mode in (0, 1) else (1e-9 if mode == 2 else 1e-7),
                       "max_iter": 150 if ctx.quick else 400, "shots": shots, "seed": ctx.rng.randrange(10 ** 6),
                       "truth_seed": -(1 + ctx.rng.randrange(10 ** 6)), "gamma": 0.3, "mu": None})
@@ -1175,7 +1175,7 @@ def sub_flags(ctx):
     if not ctx.quick or getattr(ctx, "c11_est_tie_broken", False):
         grid += [("qst3", False, "fre", 1000), ("qpt1", True, "fse", 1000), ("qst3", True, "re", 1000), ("qst3", True, "fse", 100), ("qst3", False, "se", 1000), ("qst3", True, "fre", 10 ** 5), ("qst1/xyzxz", False, "fre", 10 ** 4),
                  ("qst1/zzxy", True, "fse", 100), ("povmt1/012301", False, "re", 100), ("povmt1m3/01230", False, "fre", 1000), ("qpt1", False, "fre", 100),
-                 ("qpt1/01231", True, "fre", 1000), ("qst1", True, "re", 0), ("povmt1", True, "fre", 10)] * 2
+                 ("qpt1/01231", True, "fre", 1000), ("qst1", True, "re", 0), ("povmt1", True, "fre", 10)]
     cases = []
     for setup, para, lname, shots in grid:
         cases.append({"setup": setup, "para": para, "loss": lname, "shots": shots, "seed": ctx.rng.randrange(10 ** 6),
